@@ -23,3 +23,8 @@ Example C11_nonvacuous :
   ref_decode KBcmAnimate (mkP false 513 [0; 13; 1; 2; 9; 0; 1; 134; 160; 5; 1; 2; 3; 4; 5]) = Some (BcmAnimate 513 258 9 100000 (RgbwB 1 2 3 4 5)) /\
   ref_decode KMessage (mkP false 1 [0; 12; 0; 2; 0; 3; 1; 0; 0; 0; 52; 18; 0; 0]) = Some (Message 1 2 3 (MU16 4660)).
 Proof. split; reflexivity. Qed.
+
+(* the extracted encode-side checker accepts the model's observation for every well-formed event *)
+Require Import RP.Glue.Wire RP.Glue.StreamEV RP.Glue.StreamDEC RP.Lemmas.GlueLemmas.
+Theorem C11_checker_accepts_model : forall e, wf_event e = true -> ok_C11_EV (event_fields e) (run_EV (event_fields e)) = [].
+Proof. exact ok_C11_EV_accepts_model. Qed.
